@@ -62,8 +62,12 @@ impl LockfreeArena {
     /// the attempted amount surpasses `max_memory_usage`
     // TODO: Make this return a `Result`
     fn allocate_memory(&self, requested_mem: usize) -> LassoResult<()> {
+        #[cfg(lasso_verif)]
+        crate::verif::point(crate::verif::Point::AllocLoadMax);
         let max_memory_usage = self.max_memory_usage.load(Ordering::Relaxed);
 
+        #[cfg(lasso_verif)]
+        crate::verif::point(crate::verif::Point::AllocUpdate);
         // Check the limit and claim the memory in one atomic step, otherwise concurrent callers
         // could all pass the check first and then overshoot the limit together
         self.memory_usage
@@ -106,6 +110,8 @@ impl LockfreeArena {
         // better memory usage.
         for bucket in self.buckets.iter() {
             if let Ok(start) = bucket.try_inc_length(slice.len()) {
+                #[cfg(lasso_verif)]
+                crate::verif::point(crate::verif::Point::BeforeCopy);
                 // Safety: We now have exclusive access to `bucket[start..start + slice.len()]`
                 let allocated = unsafe { bucket.slice_mut(start) };
                 // Copy the given slice into the allocation
@@ -124,6 +130,8 @@ impl LockfreeArena {
 
         // If we couldn't find a pre-existing bucket with enough room in it, allocate our own bucket
 
+        #[cfg(lasso_verif)]
+        crate::verif::point(crate::verif::Point::GrowLoadCapacity);
         let next_capacity = self.bucket_capacity.load(Ordering::Relaxed) * 2;
         debug_assert_ne!(next_capacity, 0);
 
@@ -148,7 +156,11 @@ impl LockfreeArena {
 
             Ok(allocated_string)
         } else {
+            #[cfg(lasso_verif)]
+            crate::verif::point(crate::verif::Point::GrowLoadUsage);
             let memory_usage = self.current_memory_usage();
+            #[cfg(lasso_verif)]
+            crate::verif::point(crate::verif::Point::GrowLoadMax);
             let max_memory_usage = self.get_max_memory_usage();
 
             // If trying to use the doubled capacity will surpass our memory limit, just allocate as much as we can
@@ -185,6 +197,8 @@ impl LockfreeArena {
                 self.allocate_memory(next_capacity)?;
 
                 // Set the capacity to twice of what it currently is to allow for fewer allocations as more strings are interned
+                #[cfg(lasso_verif)]
+                crate::verif::point(crate::verif::Point::StoreCapacity);
                 self.set_bucket_capacity(next_capacity);
 
                 // Safety: `next_capacity` will never be zero
